@@ -31,7 +31,7 @@ struct Suspend;
 
 #[derive(Clone, Debug, PartialEq)]
 enum Op {
-    Load(usize, &'static str),
+    Load(usize, &'static str, u64), // address, ordering, the real std value (used only for locations outside the instance)
     Store(usize, &'static str, u64),
     Lock(usize, bool),
     ClearPoison(usize),
@@ -84,8 +84,8 @@ impl Replayer {
 }
 
 impl Scheduler for Replayer {
-    fn load(&mut self, addr: usize, order: Ordering, _real: u64) -> u64 {
-        match self.next(Op::Load(addr, ord_name(order))) {
+    fn load(&mut self, addr: usize, order: Ordering, real: u64) -> u64 {
+        match self.next(Op::Load(addr, ord_name(order), real)) {
             Resp::Val(v) => v,
             _ => 0,
         }
@@ -122,6 +122,7 @@ enum Call {
     Upd(u64),
     Try(u64),
     Bad(u64), // update with a voucher for another value: panics inside the critical section
+    Unlocked, // nfs_voucher::get_base_time_unlocked on the process-wide static (C18: it never touches a lock)
 }
 
 enum Outcome {
@@ -153,6 +154,10 @@ fn run_call(abt: &AtomicBaseTime, call: &Call, log: &Rc<RefCell<Vec<Resp>>>, kno
         Call::Bad(x) => {
             abt.update((*x, VOUCH.vouch(x.wrapping_add(1))));
             json!({"k": "bad", "val": x})
+        }
+        Call::Unlocked => {
+            let (b, _) = vouched_time::nfs_voucher::get_base_time_unlocked(time::OffsetDateTime::UNIX_EPOCH).expect("_unlocked does not fail");
+            json!({"k": "unlocked", "base": b})
         }
     }));
     set_scheduler(prev);
@@ -234,14 +239,11 @@ fn calibrate() -> (HashMap<usize, usize>, Value) {
             match run_call(&abt, call, &log, &known) {
                 Outcome::Pending(op) => {
                     let r = match &op {
-                        Op::Load(_, _) => {
-                            // sequence loads return 0, slot loads return the epoch pair
-                            let idx = ops.iter().filter(|o| matches!(o, Op::Load(_, _))).count();
-                            let is_voucher = match call {
-                                Call::Snap => idx % 3 == 1,
-                                _ => idx == 1,
-                            };
-                            Resp::Val(if is_voucher { bits(VOUCH.vouch(0)) } else { 0 })
+                        Op::Load(_, _, _) => {
+                            // Every load answers 0 (sequence 0, base time 0).  A voucher word of 0 makes the
+                            // snapshot's own check panic AFTER its loads, which is all the probe needs; answering by
+                            // position instead would be confused by code that loads in another order.
+                            Resp::Val(0)
                         }
                         Op::Lock(_, _) => Resp::Lock(true, false),
                         _ => Resp::Unit,
@@ -257,7 +259,14 @@ fn calibrate() -> (HashMap<usize, usize>, Value) {
     // changed): snapshot on a fresh instance loads seq, then the voucher and base of slot 0, then seq;
     // an update from sequence 0 takes the lock and stores base then voucher of slot 1, then seq.
     let snap_ops = seq_of(&Call::Snap, &[]);
-    let loads: Vec<usize> = snap_ops.iter().filter_map(|o| if let Op::Load(a, _) = o { Some(*a) } else { None }).collect();
+    let mut loads: Vec<usize> = Vec::new(); // distinct load addresses in order of first use
+    for o in &snap_ops {
+        if let Op::Load(a, _, _) = o {
+            if !loads.contains(a) {
+                loads.push(*a);
+            }
+        }
+    }
     if loads.len() >= 3 {
         offsets.insert(loads[0] - base, 1); // seq
         offsets.insert(loads[1] - base, 3); // v0
@@ -284,7 +293,7 @@ fn calibrate() -> (HashMap<usize, usize>, Value) {
     let describe = |ops: &[Op]| -> Vec<Value> {
         ops.iter()
             .map(|o| match o {
-                Op::Load(a, ord) => json!(["load", offsets.get(&(a - base)).map(|i| LOC_NAMES[*i]).unwrap_or("?"), ord]),
+                Op::Load(a, ord, _) => json!(["load", offsets.get(&(a - base)).map(|i| LOC_NAMES[*i]).unwrap_or("?"), ord]),
                 Op::Store(a, ord, _) => json!(["store", offsets.get(&(a - base)).map(|i| LOC_NAMES[*i]).unwrap_or("?"), ord]),
                 Op::Lock(_, b) => json!([if *b { "lock" } else { "try_lock" }, "L", ""]),
                 Op::ClearPoison(_) => json!(["clear_poison", "L", ""]),
@@ -302,7 +311,7 @@ pub fn drive_atomic(ops: &str, trace: &str) {
     let runs = read_runs(ops);
     let mut out = Trace::create(trace);
     // the replay machinery unwinds constantly: keep the panic hook quiet in this engine
-    std::panic::set_hook(Box::new(|_| {}));
+    std::panic::set_hook(Box::new(|i| { if std::env::var("WP_DEBUG").is_ok() { eprintln!("PANIC {i}"); } }));
     let (offsets, skeleton) = calibrate();
     for run in &runs {
         let programs: Vec<Vec<Call>> = run.cfg["programs"]
@@ -320,6 +329,7 @@ pub fn drive_atomic(ops: &str, trace: &str) {
                             "upd" => Call::Upd(v),
                             "try" => Call::Try(v),
                             "bad" => Call::Bad(v),
+                            "unlocked" => Call::Unlocked,
                             k => panic!("harness: call {k}"),
                         }
                     })
@@ -385,7 +395,7 @@ pub fn drive_atomic(ops: &str, trace: &str) {
                         return k[*t] < programs[*t].len();
                     }
                     match &pend[*t] {
-                        Some(Op::Lock(_, true)) => sim.holder.is_none(),
+                        Some(Op::Lock(a, true)) => sim.holder.is_none() || !sim.names.contains_key(a),
                         _ => true,
                     }
                 })
@@ -444,10 +454,26 @@ pub fn drive_atomic(ops: &str, trace: &str) {
             ev.insert("ev".into(), json!("op"));
             ev.insert("t".into(), json!(t + 1));
             let resp = match &op {
-                Op::Load(addr, ord) => {
+                Op::Load(addr, ord, real) => {
                     let l = *sim.names.get(addr).unwrap_or(&usize::MAX);
                     if l == usize::MAX {
-                        panic!("harness: load of an unknown location");
+                        // an atomic outside the instance under test (e.g. the nfs_voucher static): not simulated
+                        ev.insert("kind".into(), json!("load"));
+                        ev.insert("loc".into(), json!("ext"));
+                        ev.insert("ord".into(), json!(ord));
+                        ev.insert("rf".into(), json!(0));
+                        ev.insert("val".into(), json!(0));
+                        out.emit(&Value::Object(ev));
+                        logs[t].borrow_mut().push(Resp::Val(*real));
+                        match run_call(&abt, &programs[t][k[t]], &logs[t], &known) {
+                            Outcome::Pending(op) => pend[t] = Some(op),
+                            Outcome::Done(v, tr) => {
+                                finish(&mut out, run.run, t, v, tr, &mut sim, nops[t]);
+                                active[t] = false;
+                                k[t] += 1;
+                            }
+                        }
+                        continue;
                     }
                     let lo = if sim.sc { sim.mem[l].len() } else { sim.tv[t][l] };
                     let hi = sim.mem[l].len();
@@ -496,6 +522,22 @@ pub fn drive_atomic(ops: &str, trace: &str) {
                     ev.insert("ord".into(), json!(ord));
                     ev.insert("rf".into(), json!(0));
                     ev.insert("val".into(), json!(if l == 3 || l == 5 { known.get(val).map(|x| *x as i64).unwrap_or(-1) } else { *val as i64 }));
+                    Resp::Unit
+                }
+                Op::Lock(addr, blocking) if !sim.names.contains_key(addr) => {
+                    ev.insert("kind".into(), json!(if *blocking { "lock" } else { "try_lock" }));
+                    ev.insert("loc".into(), json!("ext"));
+                    ev.insert("ord".into(), json!(""));
+                    ev.insert("rf".into(), json!(0));
+                    ev.insert("val".into(), json!(1));
+                    Resp::Lock(true, false)
+                }
+                Op::Unlock(addr, _) if !sim.names.contains_key(addr) => {
+                    ev.insert("kind".into(), json!("unlock"));
+                    ev.insert("loc".into(), json!("ext"));
+                    ev.insert("ord".into(), json!(""));
+                    ev.insert("rf".into(), json!(0));
+                    ev.insert("val".into(), json!(0));
                     Resp::Unit
                 }
                 Op::Lock(_, blocking) => {
